@@ -48,6 +48,14 @@ class FPV:
     def __truediv__(s, o): return s._bin(o, lambda a, b: z3.fpDiv(RNE, a, b))
     def __rtruediv__(s, o): return s._bin(o, lambda a, b: z3.fpDiv(RNE, a, b), True)
     def __neg__(s): return FPV(z3.fpNeg(s.e))
+    def __abs__(s): return FPV(z3.fpAbs(s.e))
+    def __pos__(s): return s
+
+    def round_to_integral(s, how):
+        return FPV(z3.fpRoundToIntegral({"floor": z3.RTN(), "ceil": z3.RTP(), "even": RNE, "trunc": z3.RTZ()}[how], s.e))
+
+    def sqrt(s):
+        return FPV(z3.fpSqrt(RNE, s.e))
 
     def _cmp(self, o, f):
         o = lift(o)
@@ -100,19 +108,20 @@ def is_finite(v):
 
 
 def value(m, v):
-    """model value of an FPV as a Python float"""
-    x = m.eval(v.e, model_completion=True)
-    s = str(x)
-    try:
-        import struct
+    """model value of an FPV as a Python float (via the IEEE bit pattern, exact for sub-normals, zeros, infinities)"""
+    import struct
 
-        if z3.is_fprm(x):
-            return None
-        sgn, ex, sig = x.sign(), x.exponent_as_long(False), x.significand_as_long()
-        bits = (int(bool(sgn)) << 63) | ((ex & 0x7FF) << 52) | (sig & ((1 << 52) - 1))
-        return struct.unpack(">d", struct.pack(">Q", bits))[0]
+    x = m.eval(v.e, model_completion=True)
+    if z3.is_fprm(x):
+        return None
+    if z3.fpIsNaN(x) is not None and str(x) == "NaN":
+        return float("nan")
+    bits = m.eval(z3.fpToIEEEBV(x), model_completion=True)
+    try:
+        return struct.unpack(">d", struct.pack(">Q", bits.as_long()))[0]
     except Exception:  # noqa: BLE001
-        return float(s.replace("oo", "inf")) if s else None
+        s = str(x)
+        return float(s.replace("+oo", "inf").replace("-oo", "-inf").replace("oo", "inf")) if s else None
 
 
 def nextafter(v, up):
